@@ -5,11 +5,14 @@
   ★ marks the property theorems of DESIGN §5.
 -/
 import MosVerif.Lemmas.StartupLemmas
+import MosVerif.Lemmas.CloseSpec
+import MosVerif.Lemmas.ShutdownLemmas
 import MosVerif.Generated.Facts
 namespace MosVerif.C18
-open MosVerif.Startup
 
 /-! ## start-up and shutdown of the router -/
+section startup
+open MosVerif.Startup
 
 /-- ★ A start-up failure is orderly — for EVERY configuration and EVERY position of the first failing item
     (listener, metrics endpoint, upstream, domain set, rule or cache): `run` returns an error, nothing panics,
@@ -113,6 +116,192 @@ example : spec [⟨.server, true, true⟩, ⟨.server, false, true⟩] ⟨"ok", 
 example : spec [⟨.server, true, true⟩, ⟨.server, false, true⟩] ⟨"err", [], 0⟩ = true := by decide
 example : spec [⟨.server, true, true⟩] ⟨"ok", [], 0⟩ = true := by decide
 
+end startup
+
+/-! ## close protocol of the upstream transports (Model/Close.lean)
+
+  All statements are about every transport kind (reuse / https tracker, pipelined, quic) and every state that
+  is reachable by ANY sequence of operations: exchanges starting, dials returning (with a connection or an
+  error, before or after Close), replies, cancellations of the callers' contexts, idle time-outs, Close. -/
+section close
+open MosVerif.Close
+
+/-- ★ `Close` is idempotent: closing a closed transport changes nothing — for every state. -/
+theorem close_idempotent (s : St) : closeOp (closeOp s) = closeOp s := close_idem s
+
+/-- `Close` closes: the transport is closed afterwards, and stays closed whatever happens next. -/
+theorem close_closes (s : St) (ops : List Op) : (run (closeOp s) ops).closed = true :=
+  closed_run _ _ (closeOp_closed s)
+
+/-- ★ after Close every connection is closed — tracked or not, whatever happened before and whatever
+    happens afterwards (late dials, releases, further exchanges, repeated Close). -/
+theorem after_close_all_closed (k : Kind) (ops : List Op) :
+    (run (init k) ops).closed = true → ∀ c ∈ (run (init k) ops).conns, c.isOpen = false :=
+  (reach_inv k ops).closedNoOpen
+
+/-- the reason Close reaches every connection: in every reachable state an open connection is tracked. -/
+theorem open_conns_are_tracked (k : Kind) (ops : List Op) :
+    ∀ c ∈ (run (init k) ops).conns, c.isOpen = true → c.tracked = true :=
+  (reach_inv k ops).openTracked
+
+/-- ★ a dial that completes after Close: the new connection is closed and not tracked, the dial is no longer
+    pending, every caller that waited for it has an error, nobody is left on it, and (again) no connection at
+    all is open — for every reachable closed state with that dial pending. -/
+theorem late_dial_closed (k : Kind) (ops : List Op) (d : Nat)
+    (hc : (run (init k) ops).closed = true) (hd : (run (init k) ops).hasDial d = true) :
+    let s' := step (run (init k) ops) (.dialOk d)
+    (⟨d, false, false, false⟩ : Conn) ∈ s'.conns ∧
+    (∀ c ∈ s'.conns, c.isOpen = false) ∧
+    s'.hasDial d = false ∧
+    (∀ x ∈ s'.exs, x.loc ≠ .dial d) ∧
+    (∀ x ∈ (run (init k) ops).exs, x.loc = .dial d → ∃ y ∈ s'.exs, y.id = x.id ∧ y.res ≠ none) := by
+  have hinv : Inv (step (run (init k) ops) (.dialOk d)) := inv_step _ _ (reach_inv k ops)
+  have hcl := closed_step _ (.dialOk d) hc
+  refine ⟨?_, hinv.closedNoOpen hcl, ?_, ?_, ?_⟩
+  · simp [step, late_dial _ d hc hd]
+  · simp [step, late_dial _ d hc hd, St.hasDial]
+  · simp only [step, late_dial _ d hc hd, failWaiters, List.mem_map]
+    rintro x ⟨y, _, rfl⟩
+    split <;> simp_all
+  · intro x hx hl
+    refine ⟨{ x with res := x.res.or (some .err), loc := .none }, ?_, rfl, ?_⟩
+    · simp only [step, late_dial _ d hc hd, failWaiters, List.mem_map]
+      exact ⟨x, hx, by simp [hl]⟩
+    · cases x.res <;> simp
+
+/-- non-vacuity: a reachable closed state with a pending (stubborn) dial, and the late dial's connection. -/
+example : (run (init .reuse) [.start 1 true, .close]).closed = true ∧
+    (run (init .reuse) [.start 1 true, .close]).hasDial 1 = true ∧
+    (run (init .reuse) [.start 1 true, .close, .dialOk 1]).conns = [⟨1, false, false, false⟩] ∧
+    (run (init .reuse) [.start 1 true, .close, .dialOk 1]).exs = [⟨1, some .err, .none⟩] := by decide
+
+/-- ★ an exchange that starts after Close fails at once: it gets an error, dials nothing and touches no
+    connection — for every closed state and every new exchange. -/
+theorem after_close_exchange_fails (s : St) (e : Nat) (b : Bool)
+    (hc : s.closed = true) (he : s.hasEx e = false) :
+    step s (.start e b) = { s with exs := s.exs ++ [⟨e, some .err, .none⟩] } :=
+  start_after_close s e b hc he
+
+/-- ★ in-flight exchanges fail instead of hanging: right after Close (in any reachable state) a caller that
+    has not returned can only be waiting for a dial whose DialContext ignores the cancellation of its context
+    — never on a pipelined transport — and every caller that was on a connection has an error. -/
+theorem close_fails_in_flight (k : Kind) (ops : List Op) :
+    let s := run (init k) (ops ++ [.close])
+    (∀ x ∈ s.exs, x.res = none → (∃ d ∈ s.dials, x.loc = .dial d.id ∧ d.stubborn = true) ∧ k ≠ .pipe) := by
+  intro s x hx hn
+  have hinv : Inv s := reach_inv k _
+  have hc : s.closed = true := by
+    simp only [s, run, List.foldl_append, List.foldl_cons, List.foldl_nil, step]
+    exact closeOp_closed _
+  obtain ⟨⟨d, hd, hl⟩, hk⟩ := hinv.closedBlocked hc x hx hn
+  refine ⟨⟨d, hd, hl, hinv.closedDials hc d hd⟩, ?_⟩
+  have hkind : ∀ (s0 : St) (l : List Op), (run s0 l).kind = s0.kind := by
+    intro s0 l
+    induction l generalizing s0 with
+    | nil => rfl
+    | cons op rest ih =>
+      simp only [run, List.foldl_cons] at ih ⊢
+      rw [ih]
+      cases op <;> simp only [step, startOp, dialOkOp, dialErrOp, replyOp, cancelOp, timerOp, closeOp] <;>
+        repeat' split
+      all_goals rfl
+  have : s.kind = k := hkind (init k) (ops ++ [.close])
+  simpa [this] using hk
+
+/-- ★ nothing hangs: once the transport is closed and no dial is pending any more, every exchange has
+    returned — for every reachable state; in particular at the end of every script of the harness, whose
+    epilogue lets every pending dial return. -/
+theorem no_hang_after_close (k : Kind) (ops : List Op)
+    (hc : (run (init k) ops).closed = true) (hd : (run (init k) ops).dials = []) :
+    ∀ x ∈ (run (init k) ops).exs, x.res ≠ none := by
+  intro x hx hn
+  obtain ⟨⟨d, hdm, _⟩, _⟩ := (reach_inv k ops).closedBlocked hc x hx hn
+  simp [hd] at hdm
+
+theorem script_no_hang (k : Kind) (ops : List Op) (hc : (run (init k) ops).closed = true) :
+    let s := epilogue (run (init k) ops)
+    s.closed = true ∧ s.dials = [] ∧ (∀ c ∈ s.conns, c.isOpen = false) ∧ (∀ x ∈ s.exs, x.res ≠ none) := by
+  have hinv := epilogue_inv _ (reach_inv k ops)
+  have hcl := epilogue_closed _ hc
+  have hdl := epilogue_dials _ hc
+  refine ⟨hcl, hdl, hinv.closedNoOpen hcl, ?_⟩
+  intro x hx hn
+  obtain ⟨⟨d, hdm, _⟩, _⟩ := hinv.closedBlocked hcl x hx hn
+  simp [hdl] at hdm
+
+/-- ★ after Close no exchange succeeds any more: an exchange that is `ok` after a step taken in a closed
+    state was `ok` before it (only a reply that arrived before Close makes an exchange succeed). -/
+theorem no_success_after_close (k : Kind) (ops : List Op) (op : Op)
+    (hc : (run (init k) ops).closed = true) :
+    ∀ x ∈ (step (run (init k) ops) op).exs, x.res = some .ok →
+      ∃ y ∈ (run (init k) ops).exs, y.id = x.id ∧ y.res = some .ok :=
+  no_ok_after_close _ op (reach_inv k ops) hc
+
+/-- non-vacuity / sanity of the model: Close during an exchange fails it, a reply before Close succeeds. -/
+example : (run (init .pipe) [.start 1 false, .dialOk 1, .close]).exs = [⟨1, some .err, .none⟩] := by decide
+example : (run (init .quic) [.start 1 false, .dialOk 1, .reply 1, .close]).exs = [⟨1, some .ok, .none⟩] := by decide
+
+/-- ★ the model meets the executable specification that judges the implementation's observations (every
+    Close returns, also the repeated ones; no exchange is left hanging; exchanges started after the Close fail;
+    exchanges in flight at the Close do not succeed; no connection is left open, late dials included; nobody is
+    blocked once Close has returned unless the script's dialer ignores its context) — for EVERY transport kind,
+    both modes and EVERY script. -/
+theorem closeproto_model_meets_spec (k : Kind) (auto : Bool) (ops : List Op) :
+    spec auto ops (obsOf ((fullOps auto ops).filter (· == .close)).length (runScript k auto ops)) = true :=
+  model_meets_spec k auto ops
+
+/-- the specification is not vacuous: it rejects a hanging exchange, a success after Close, an exchange in
+    flight that succeeds, an open connection, a Close that did not return, a blocked caller after Close. -/
+example : spec false [.start 1 false, .close] ⟨[(1, "pend")], some 1, 0, []⟩ = false := by decide
+example : spec false [.close, .start 1 false] ⟨[(1, "ok")], some 1, 0, []⟩ = false := by decide
+example : spec false [.start 1 false, .dialOk 1, .close] ⟨[(1, "ok")], some 1, 0, []⟩ = false := by decide
+example : spec false [.start 1 true, .close, .dialOk 1] ⟨[(1, "err")], some 1, 1, [1]⟩ = false := by decide
+example : spec false [.close, .close] ⟨[], some 1, 0, []⟩ = false := by decide
+example : spec false [.start 1 false, .close] ⟨[(1, "err")], some 1, 0, [1]⟩ = false := by decide
+example : spec false [.start 1 false, .dialOk 1, .reply 1, .close, .start 2 false]
+    ⟨[(1, "ok"), (2, "err")], some 1, 0, []⟩ = true := by decide
+
+end close
+
+/-! ## shutdown of a running router with traffic (Model/Shutdown.lean) -/
+section shutdown
+open MosVerif.Shutdown
+
+/-- ★ shutdown with traffic meets the specification — for EVERY configuration whose items all start, every
+    upstream kind, with or without a warm-up query and for EVERY number `n` of queries in flight: `run`
+    succeeds, both closes return, each of the `n` in-flight queries and the query that arrives after the close
+    fail (SERVFAIL) instead of hanging or succeeding, no listening address stays bound and no socket or upstream
+    connection stays open. -/
+theorem shutdown_model_meets_spec (cfg : List Startup.Item) (h : ∀ x ∈ cfg, x.ok = true)
+    (k : Close.Kind) (warm : Bool) (n : Nat) :
+    Shutdown.spec (model cfg k warm n) = true := by
+  obtain ⟨h1, h2, h3, _, _⟩ := shutdown_clean cfg h 1
+  obtain ⟨hin, haf, hop⟩ := upstream_side k warm n
+  have hall : (List.range n).all
+      (fun i => resOf (Close.runScript k true (script warm n)) (i + 1) == some Close.Res.err) = true := by
+    simp only [List.all_eq_true, List.mem_range]
+    intro i hi
+    simp [hin i hi]
+  have hres : (Startup.obsOf (Startup.runThenClose cfg 2)).res = "ok" := by
+    simp [Startup.obsOf, h1, h2]
+  unfold Shutdown.spec model
+  simp only [hall, haf, hop, h3, hres, if_true]
+  cases warm
+  · simp only [Bool.false_eq_true, if_false]
+    decide
+  · simp only [if_true]
+    split <;> decide
+
+/-- the specification is not vacuous -/
+example : Shutdown.spec ⟨"ok", "ok", some 2, "hang", "fail", [], 0⟩ = false := by decide
+example : Shutdown.spec ⟨"ok", "ok", some 2, "fail", "ok", [], 0⟩ = false := by decide
+example : Shutdown.spec ⟨"ok", "-", some 1, "fail", "fail", [], 0⟩ = false := by decide
+example : Shutdown.spec ⟨"ok", "-", some 2, "fail", "fail", [3], 0⟩ = false := by decide
+example : Shutdown.spec ⟨"ok", "-", some 2, "fail", "fail", [], 1⟩ = false := by decide
+example : Shutdown.spec ⟨"ok", "ok", some 2, "fail", "fail", [], 0⟩ = true := by decide
+
+end shutdown
+
 /-! ## tie: pinned source facts -/
 
 /-- The statement order in `run`'s listener loop (start, error check with `return`, only then the append),
@@ -130,6 +319,39 @@ theorem pins_startup :
       "{ r.cancel(err) r.limiter.Close() for _, u := range r.upstreams { u.u.Close() } if r.cache != nil { r.cache.Close() } for _, f := range r.serverClosers { f() } }" ∧
     Facts.c18_startServerDefault = "return nil, fmt.Errorf(\"invalid server protocol [%s]\", cfg.Protocol)" ∧
     Facts.c18_startServerNilOnErr = 8 := by
+  (repeat' apply And.intro) <;> rfl
+
+/-- The close protocol in the source: every transport's `Close` (mark closed under the lock, close what is
+    tracked, cancel), the `closed` checks where a dial registers its connection (reuse asyncDial, quic
+    runDialingCall incl. waking the waiters, the https `connTracker.track`) and where a connection is released
+    (releaseConn); `DoHTransport.Close` delegating to its closer (D13); the https closer closing the tracked
+    connections (D14); quic/h3 upstreams and the quic listener closing their QUIC transport and UDP socket;
+    the fasthttp listener closing its net.Listener; udpWithFallback closing both legs. -/
+theorem pins_close :
+    Facts.c18_dohClose = "{ if u.closer != nil { return u.closer.Close() } return nil }" ∧
+    Facts.c18_fallbackClose = "{ u.u.Close() u.t.Close() return nil }" ∧
+    Facts.c18_fastHttpClose = "{ s.closed.Store(true) err := s.s.Shutdown() s.l.Close() return err }" ∧
+    Facts.c18_fastHttpShutdownInStartServer = 0 ∧
+    Facts.c18_h3Closer = "addonCloser = closerFunc(func() error { quicTransport.Close(); return conn.Close() })" ∧
+    Facts.c18_httpsCloser = "addonCloser = closerFunc(func() error { t1.CloseIdleConnections(); ct.close(); return nil })" ∧
+    Facts.c18_httpsDialTrack = "return ct.track(c)" ∧
+    Facts.c18_pipeClose = "{ return t.pool.Close() }" ∧
+    Facts.c18_pipeConnClose = "{ if err == nil { err = errPipelineConnClosed } c.m.Lock() if c.closed { c.m.Unlock() return } c.closed = true c.m.Unlock() c.cancelCause(err) go c.c.Close() debugLogTransportConnClosed(c.c, c.t.logger, err) }" ∧
+    Facts.c18_quicClose = "{ t.m.Lock() defer t.m.Unlock() if t.closed { return nil } t.closed = true t.cancelCtx(ErrClosedTransport) if t.c != nil { t.c.CloseWithError(quic.ApplicationErrorCode(_DOQ_NO_ERROR), \"\") } return nil }" ∧
+    Facts.c18_quicDialClosed = "if t.closed { t.m.Unlock() if c != nil { c.CloseWithError(quic.ApplicationErrorCode(_DOQ_NO_ERROR), \"\") } call.err = ErrClosedTransport close(call.done) return }" ∧
+    Facts.c18_quicDialWake = 2 ∧
+    Facts.c18_quicGetClosed = "t.closed" ∧
+    Facts.c18_quicServerClose = "{ s.closeOnce.Do(func() { s.closed.Store(true) s.l.Close() s.qt.Close() s.uc.Close() }) return nil }" ∧
+    Facts.c18_quicUpCloser = "return &upstreamWithCloser{ Transport: transport.NewQuicTransport(transport.QuicTransportOpts{ DialContext: dialQuicConn, Logger: logger, }), closer: closerFunc(func() error { t.Close(); return uc.Close() }), }, nil" ∧
+    Facts.c18_reuseClose = "{ t.m.Lock() defer t.m.Unlock() if t.closed { return nil } t.closed = true for c := range t.conns { c.c.Close() } t.cancelCause(ErrClosedTransport) return nil }" ∧
+    Facts.c18_reuseDialClosed = "if t.closed { t.m.Unlock() rc.close() rc = nil err = ErrClosedTransport } else { t.conns[rc] = struct{}{} t.m.Unlock() debugLogTransportConnOpen(c, t.logger) }" ∧
+    Facts.c18_reuseGetClosed = "t.closed" ∧
+    Facts.c18_reuseReleaseClosed = "if t.closed { t.m.Unlock() if err == nil { rc.close() } return }" ∧
+    Facts.c18_tcpServerClose = "{ s.closeOnce.Do(func() { s.closed.Store(true) s.l.Close() }) return nil }" ∧
+    Facts.c18_trackerClose = "{ t.m.Lock() t.closed = true conns := t.conns t.conns = nil t.m.Unlock() for c := range conns { c.Conn.Close() } }" ∧
+    Facts.c18_trackerTrack = "{ t.m.Lock() defer t.m.Unlock() if t.closed { c.Close() return nil, transport.ErrClosedTransport } tc := &trackedConn{Conn: c, t: t} t.conns[tc] = struct{}{} return tc, nil }" ∧
+    Facts.c18_udpServerClose = "{ s.closeOnce.Do(func() { s.closed.Store(true) for _, c := range s.cs { c.c.Close() } }) return nil }" ∧
+    Facts.c18_upCloserClose = "{ err := u.Transport.Close() u.closer.Close() return err }" := by
   (repeat' apply And.intro) <;> rfl
 
 end MosVerif.C18
